@@ -91,7 +91,7 @@ def cas_rule(ctx, rule, label="cas"):
                       message=f"{cls.name}.{mname}: a RUNNING request on an already RUNNING trial can return {sorted(set(bad_ret))} "
                               f"instead of False (the loser of the race would believe it owns the trial)",
                       how="every return reachable for (RUNNING, RUNNING) is `return False`")
-    ctx.floor(rule, "primary_backends", n_backends, 3)
+    ctx.floor(rule, "primary_backends", n_backends, 3, exact=True)
     # the journal reject helper: True only when the stored state is not finished
     cls = p.cls(REPLAY)
     f = cls.methods.get("_trial_exists_and_updatable")
